@@ -422,10 +422,12 @@ def execute(cfg, extra_next=3, want_trace=False, action_hook=None):
                         mon.v("C09", "premature-stop", "StopIteration although a calculation is outstanding")
                         mon.v("C17", "valid-config-incomplete", "stream stops early")
                         break
-                    # after the end: exhaustion must hold and keep holding
+                    # after the end: exhaustion must hold and keep holding, is_running stays True,
+                    # n / r / max_n keep reporting where the execution stands
                     ok, exh = mon._get("is_exhausted")
                     if ok and not exh:
                         mon.v("C09", "is_exhausted-wrong", "is_exhausted False after StopIteration")
+                    mon.check_observers()
                     if stops >= extra_next:
                         break
                     continue
